@@ -158,9 +158,11 @@ class ExecResolve(ExecCall):
         self.cur_cls = defining_cls
         self.depth += 1
         inner_contract_loops = None
+        self.inline_stack.append(label)
         try:
             outs = self.exec_block(fn.body, st)
         finally:
+            self.inline_stack.pop()
             self.depth -= 1
             self.cur_cls = saved_cls
         for s, oc in outs:
